@@ -345,7 +345,12 @@ pub fn load(text: &str, code_base: u64) -> Result<Prog, LoadErr> {
     }
     addr.push(a);
     let entry = first_label.ok_or_else(|| LoadErr::Text(Viol::new(Class::Text, "no label")))?;
-    let cleanup = *labels.get("cleanup").ok_or_else(|| LoadErr::Text(Viol::new(Class::Text, "no cleanup label")))?;
+    // the exit point: the label `cleanup` of the pinned back end or, under any other spelling, the
+    // label that stands at the very end of the text (nothing but the end follows it)
+    let cleanup = match labels.get("cleanup") {
+        Some(c) => *c,
+        None => *labels.values().find(|i| **i == ins.len()).ok_or_else(|| LoadErr::Text(Viol::new(Class::Text, "no exit label at the end of the text")))?,
+    };
     Ok(Prog { ins, addr, src_line, labels, probe_names, entry, cleanup, code_base, code_end: a })
 }
 
